@@ -36,6 +36,7 @@ pub struct CaseStats {
     pub fair_decisions: u64,
     pub spurious_wakes: u64,
     pub starve_applied: u64,
+    pub pauses_applied: u64,
     pub probes: Probes,
     pub rt_faults: [u64; 16],
     pub db_calls: u64,
@@ -164,13 +165,18 @@ pub fn run_pipeline_case(
     // ---------------- simulated run
     let opts = RunOptions {
         record_trace: want.record_trace,
-        record_log: false,
+        record_log: std::env::var_os("VERIF_LOG").is_some(),
         // With delegated-safety policies on, stock revm is not a reference for per-commit deltas.
         expected_first: (!policy_on).then(|| expected_first.clone()),
         expected_second: if policy_on { None } else { expected_second.clone() },
     };
-    let SimResult { verdict, sched: sched_out, monitor, steps, trace_hash, fault_counts, .. } =
+    let SimResult { verdict, sched: sched_out, monitor, steps, trace_hash, fault_counts, log } =
         run::run_sim(scenario, sched, replay, &opts);
+    if let Some(log) = &log {
+        for (i, (task, site)) in log.iter().enumerate() {
+            eprintln!("LOG {i} task={task} site={site:08x}");
+        }
+    }
 
     let mut findings = Vec::new();
     let mut stats = CaseStats {
@@ -182,6 +188,7 @@ pub fn run_pipeline_case(
         fair_decisions: sched_out.fair_decisions,
         spurious_wakes: sched_out.spurious_wakes,
         starve_applied: sched_out.starve_applied,
+        pauses_applied: sched_out.pauses_applied,
         probes: monitor.probes.clone(),
         rt_faults: fault_counts,
         trace_hash,
